@@ -178,6 +178,7 @@ type gctx struct {
 	out      []string
 	wait     string // appended to every op once an op may leave the node waiting
 	reqBlock []byte // header of a requested block
+	lastReq  string // hex header of the last block request of a C16 script
 }
 
 func (g *gctx) emit(op string) {
@@ -570,6 +571,7 @@ func (g *gctx) blockScenario(allowStall bool) bool {
 		}
 	}
 	g.emit("reqblock hdr=" + hx80)
+	g.lastReq = hx80
 	if r.Chance(30) {
 		g.emit("reqblock hdr=" + hex.EncodeToString(other)) // busy
 	}
@@ -685,7 +687,12 @@ func genC16(g *gctx) {
 	g.emit("blockstate")
 	for i := 1 + r.Intn(3); i > 0; i-- {
 		if !g.blockScenario(true) {
-			g.emit("close")
+			if r.Chance(50) {
+				// the peer drops while the download is being cancelled
+				g.emit("closecancel hdr=" + g.lastReq)
+			} else {
+				g.emit("close")
+			}
 			return
 		}
 		if r.Chance(30) {
@@ -694,6 +701,10 @@ func genC16(g *gctx) {
 	}
 	g.emit(fmt.Sprintf("ping n=%d", 5000000+r.Intn(1000000)))
 	g.emit("blockstate")
+	if r.Chance(15) && g.lastReq != "" {
+		g.emit("closecancel hdr=" + g.lastReq)
+		return
+	}
 	g.emit("close")
 }
 
